@@ -124,6 +124,8 @@ def check(an, rep, tier):
                                  'S-matmul', 'S-index', 'S-unpack'],
                     wheres={'cross.cross', 'cross._iter', 'cross._func',
                             'cross._func_eval'})
+    from .. import rules_proto as _RPZ
+    _RPZ.check_none_vs_zero(prog, rep, modules={'cross', 'utils'})
     rep.floor('P-budget', 2, 'objective call sites')
     rep.floor('P-count', 4, 'counter paths')
     rep.floor('P-stop-writers', 6, 'stop writers (cross + _info_appr)')
